@@ -232,9 +232,9 @@ def _get_numbers_distance(num1, num2, max_=1, use_log_scale=False, log_scale_sim
         if distance < 0:
             return 0
         return distance
-    if not isinstance(num1, float):
+    if not isinstance(num1, (float, complex)):
         num1 = float(num1)
-    if not isinstance(num2, float):
+    if not isinstance(num2, (float, complex)):
         num2 = float(num2)
     # Since we have a default cutoff of 0.3 distance when
     # getting the pairs of items during the ingore_order=True
